@@ -7,8 +7,8 @@ use std::sync::Arc;
 #[derive(Clone, Copy)] pub struct BlockEnv { pub beneficiary: Address, pub number: BlockNumber }
 #[verifier::external_body] #[verifier::reject_recursive_types(DB)] pub struct ParallelState<DB> { p: core::marker::PhantomData<DB> }
 pub struct DynParallelPrecompile { pub p: u8 }
-pub struct DelegatedSafetyCfg { pub forbid_delegated_create: bool, pub reserve_balance: bool }
-pub struct GrevmConfig { pub force_sequential: bool, pub min_parallel_txs: usize, pub concurrency_level: usize, pub delegated_safety: DelegatedSafetyCfg }
+#[derive(Clone, Copy)] pub struct DelegatedSafetyConfig { pub forbid_delegated_create: bool, pub reserve_balance: bool }
+pub struct GrevmConfig { pub force_sequential: bool, pub min_parallel_txs: usize, pub concurrency_level: usize, pub delegated_safety: DelegatedSafetyConfig }
 pub struct ReservePlanner { pub p: u8 }
 #[verifier::external_body] #[verifier::reject_recursive_types(T)] pub struct OnceLock<T> { p: core::marker::PhantomData<T> }
 impl<T> OnceLock<T> {
